@@ -19,7 +19,7 @@ def _tsan_filter(block):
 def run_property(pid, tier, seed, result):
     cfgs = ["asan"] if tier == "quick" else ["asan", "ref", "tsan"]
     if os.environ.get("VERIF_CONFIGS"):
-        cfgs = [c for c in cfgs if c in os.environ["VERIF_CONFIGS"].split(",")] or cfgs[:1]
+        cfgs = [c for c in os.environ["VERIF_CONFIGS"].split(",") if c in ("asan", "ref", "tsan")] or cfgs[:1]   # development override
     for cfg in cfgs:
         vp = pybuild.vpool_build(cfg)
         env = {"PYTHONPATH": vp}
@@ -28,7 +28,7 @@ def run_property(pid, tier, seed, result):
             # real threads only; the quick-sized workload is enough to drive every dispatching entry point under TSan
             env["C20_MODES"] = "thr,thrd"
             t = "quick"
-        classes, extra = pyprops.run_workload(result, cfg, "c20_vec.py", t, seed, parts=8, timeout=10800 if tier == "thorough" else 3000, extra_env=env,
+        classes, extra = pyprops.run_workload(result, cfg, "c20_vec.py", t, seed, parts=16, timeout=10800 if tier == "thorough" else 3000, extra_env=env,
                                               tsan_filter=_tsan_filter)
         if cfg != "tsan":
             pyprops.require_classes(result, "c20_vec.py[%s]" % cfg, classes, REQ)
